@@ -18,7 +18,7 @@ TECHNIQUE = ('exhaustive enumeration of small public datasets (all multisets of 
              'PublicInference; weights/frame validity and harness-recomputed loss against the uniformly weighted public data')
 RULE = ('case = (public multiset, private data, structure, query kind, sigma, total mode, history); public datasets: ALL non-empty multisets of <= 3 records '
         'over the 6 cells of (A:2,B:3) (83), incl. ones disjoint from the private support; structures {A}, {AB}, {A,B}, {AB,B}; kinds identity/prefix; '
-        'sigma {0.5,2}; totals {1, N, None}, given totals spelled as float/int/numpy scalar types (rotated); histories: second estimate call on the same object with every other structure (validity clauses). '
+        'sigma {0.5,2}; totals {1, N, None}, given totals spelled as float/int/numpy scalar types (rotated); histories: second estimate call on the same object (same list object refilled) with two (quick) / three (thorough: prefix kind, sigma 2, totals N/None) other structures (validity clauses). '
         'states = (object, history) nodes, transitions = estimate calls; non-trivial = >= 2 public records; distinct = digest of the case.')
 LEVEL_TEXT = ('Every public dataset of the small scope is reweighted against every measurement configuration of the alphabet; the returned weights must be '
               'finite, nonnegative, one per public record, sum to the given or independently estimated total, leave the public records unchanged, '
@@ -62,7 +62,7 @@ def jobs(tier, seed):
         # all multisets of <= 2 records (27) + every fifth 3-record multiset; one PublicInference call costs ~1 s (250 inner iterations)
         idx = list(range(27)) + list(range(27, len(pubs), 5))
         return [{'idx': [i], 'tier': tier, 'seed': seed} for i in idx]
-    return [{'idx': list(range(i, min(len(pubs), i + 3))), 'tier': tier, 'seed': seed} for i in range(0, len(pubs), 3)]
+    return [{'idx': [i], 'tier': tier, 'seed': seed} for i in range(len(pubs))]
 
 
 def build_measurements(struct, kind, sigma, priv, seed):
@@ -139,7 +139,8 @@ def run_public(acc, pi, tier, seed, only=None):
     pub = publics()[pi]
     dom = Domain(ATTRS, SIZES)
     frame0 = np.array(pub, dtype=int).reshape(len(pub), 2)
-    privs = ['p1', 'p2', 'p3'] if tier == 'thorough' else [['p1', 'p2', 'p3'][pi % 3]]
+    # one PublicInference call costs ~2 s: thorough runs all private datasets for the publics of <= 2 records, a rotated one for 3-record publics
+    privs = ['p1', 'p2', 'p3'] if (tier == 'thorough' and len(pub) <= 2) else [['p1', 'p2', 'p3'][pi % 3]]
     sts = list(STRUCTS) if tier == 'thorough' else [list(STRUCTS)[(pi + j) % 6] for j in (0, 1, 3, 4)]
     combos = [(priv, struct, kind, sigma) for priv in privs for struct, kind, sigma in itertools.product(sts, ['identity', 'prefix'], [0.5, 2.0])
               if not (tier == 'quick' and (kind == 'identity') != (sigma == 0.5))]
@@ -181,8 +182,17 @@ def run_public(acc, pi, tier, seed, only=None):
                 for kd, msg in fails:
                     acc.violate(case, {'kind': kd, 'call': 1}, 'public %r, %s/%s/sigma=%g/total=%s: %s' % (pub, struct, kind, sigma, tmode, msg))
                 # history: a second call on the same object with every other structure (validity clauses only)
-                if tier == 'thorough' or (struct == list(STRUCTS)[pi % 6] and kind == 'prefix'):
-                    for s2 in (list(STRUCTS) if tier == 'thorough' else [list(STRUCTS)[(pi + 1) % 6], list(STRUCTS)[(pi + 4) % 6]]):
+                hist_here = (struct == list(STRUCTS)[pi % 6] and kind == 'prefix') if tier == 'quick' else (kind == 'prefix' and sigma == 2.0 and tmode != '1' and priv == ['p1', 'p2', 'p3'][pi % 3])
+                if hist_here or (only is not None and only.get('second')):
+                    si_ = list(STRUCTS).index(struct)
+                    names_ = list(STRUCTS)
+                    if only is not None:
+                        menu2 = names_
+                    elif tier == 'thorough':
+                        menu2 = [names_[(si_ + 1) % 6], names_[(si_ + 3) % 6], names_[(si_ + 4) % 6]]
+                    else:
+                        menu2 = [names_[(pi + 1) % 6], names_[(pi + 4) % 6]]
+                    for s2 in menu2:
                         if s2 == struct or (only is not None and only['second'] != s2):
                             continue
                         ms2, dense2 = build_measurements(s2, 'prefix' if kind == 'identity' else 'identity', sigma, priv, seed + 1)
